@@ -170,7 +170,27 @@ open Osyris.Basis in
 def v3ToJson (v : Basis.V3) : Json := ratsToJson [v.x, v.y, v.z]
 
 open Osyris.Basis in
+def basisToJson (b : Basis.Basis) (extra : List (String × Json)) : Json :=
+  Json.mkObj ([("out", Json.str "basis"), ("n", v3ToJson b.n), ("u", v3ToJson b.u), ("v", v3ToJson b.v)] ++ extra)
+
+open Osyris.Basis in
+/-- the `VectorBasis` constructor called directly: `VectorBasis(n, u)` and `VectorBasis(n).roll()` -/
+def handleCtor (dj : Json) : Option Json :=
+  match getStr? dj "kind" with
+  | some "nu" => do
+    let n ← (getField? dj "n").bind v3Of
+    let u ← (getField? dj "u").bind v3Of
+    pure (basisToJson (mkBasis n (some u) none) [])
+  | some "roll" => do
+    let n ← (getField? dj "n").bind v3Of
+    pure (basisToJson (mkBasis n none none).roll [])
+  | _ => none
+
+open Osyris.Basis in
 def handleBasis (j : Json) : Json :=
+  match (getField? j "dir").bind handleCtor with
+  | some r => r
+  | none =>
   let parsed : Option (Dir × Option Cloud × Option (Rat × Rat) × Option V3) := do
     let dj ← getField? j "dir"
     let d ← match getStr? dj "kind" with
@@ -214,7 +234,7 @@ def handleBasis (j : Json) : Json :=
       | some (R, L) => [("R", ratToJson R), ("L", v3ToJson L)]
       | none => []
     match getDirection d cloud win origin with
-    | .basis b => Json.mkObj ([("out", Json.str "basis"), ("n", v3ToJson b.n), ("u", v3ToJson b.u), ("v", v3ToJson b.v)] ++ extra)
+    | .basis b => basisToJson b extra
     | .none => Json.mkObj [("out", Json.str "none")]
     | .valueErr => Json.mkObj [("out", Json.str "valueErr")]
     | .fails => Json.mkObj [("out", Json.str "fails")]
